@@ -375,3 +375,40 @@ DETAIL = f'sequential mode with lists of 3 and 2 values: the parallel path prepa
                         rows = p.ex.try_list(ev[2][0]) if ev[2] else None
                 u.oblige(p, "parallel.params[sequential]", bool(rows is not None and len(rows) == sum(shape)), {"rows": 0 if rows is None else len(rows)}, rp_seq)
         u.cover(f"parallel.params.cover[{mode_name}]", ps, lambda p: p.kind == "return")
+
+
+DIM_REPLAY = lambda w: {"code": """
+from pyxel.observation.observation import _get_short_dimension_names_new
+VIOLATED, DETAIL = False, 'labels follow the declaration order and are distinct'
+T, A, B, Q = 'detector.environment.temperature', 'pipeline.photon_collection.illum_a.arguments.level', 'pipeline.photon_collection.illum_b.arguments.level', 'detector.characteristics.quantum_efficiency'
+for keys in ([T, A, B], [A, T, B], [A, B, T], [T, Q], [A, Q, B, T]):
+    d = _get_short_dimension_names_new({k: None for k in keys})
+    if list(d) != keys or len(set(d.values())) != len(keys):
+        VIOLATED, DETAIL = True, f'declared {keys}: mapping order {list(d)}, labels {list(d.values())}'; break
+""", "expect": "the key -> label mapping lists the parameters in declaration order (the parallel path pairs it positionally with the values) with distinct labels"}
+
+
+@unit("C05", "dimension_names")
+def dimension_names(u: Unit):
+    """_get_short_dimension_names_new: one label per enabled parameter, IN DECLARATION ORDER (the dask task pairs the
+    mapping's keys positionally with the run's value tuple: dict(zip(dimension_names, params_tuple))), labels distinct when
+    the short names collide. Declared key lists of 2..4 parameters with and without colliding short names."""
+    fi = u.fn(f"{OBS}::_get_short_dimension_names_new")
+    cfg = Cfg("real")
+    T, A, B, Q = ("detector.environment.temperature", "pipeline.photon_collection.illum_a.arguments.level", "pipeline.photon_collection.illum_b.arguments.level",
+                  "detector.characteristics.quantum_efficiency")
+    cases = {"T,A,B": [T, A, B], "A,T,B": [A, T, B], "A,B,T": [A, B, T], "T,Q": [T, Q], "A,Q,B,T": [A, Q, B, T], "readout": ["observation.readout.times", A, T, B]}
+    for tag, keys in cases.items():
+        def setup(ex, keys=keys):
+            return [], {"types": ex.st.alloc(HDict([(VStr(k), VStr("number")) for k in keys]))}
+        ps = u.paths(fi, setup, cfg, label=f"_get_short_dimension_names_new[{tag}]")
+        for p in ps:
+            if p.kind != "return":
+                u.oblige(p, f"dimension_names.no_raise[{tag}]", False, {"exc": p.exc_name()}, DIM_REPLAY)
+                continue
+            d = p.ex.try_dict(p.value)
+            got = [k.v for k, _ in d] if d is not None else None
+            u.oblige(p, f"dimension_names.declaration_order[{tag}]", bool(got == keys), {"order": str(got)}, DIM_REPLAY)
+            labels = [v.v for _, v in d] if d is not None else []
+            u.oblige(p, f"dimension_names.distinct_labels[{tag}]", bool(len(set(labels)) == len(keys)), {"labels": str(labels)}, DIM_REPLAY)
+        u.cover(f"dimension_names.cover[{tag}]", ps, lambda p: p.kind == "return")
